@@ -40,10 +40,10 @@ def _instances():
     masks = lambda: OrderedDict([("a", np.array([1, 1, 1, 0, 0], bool)), ("b", np.array([0, 0, 1, 1, 1], bool))])
 
     def lm(s):
-        s.landmarks["g1"] = ms.PointUndirectedGraph.init_from_edges(P[:3] + 1, np.array([[0, 1], [1, 2]]))
+        s.landmarks["zeta_g"] = ms.PointUndirectedGraph.init_from_edges(P[:3] + 1, np.array([[0, 1], [1, 2]]))
         inner = ms.LabelledPointUndirectedGraph.init_from_edges(P.copy(), edges, masks())
         inner.landmarks["deep"] = ms.PointCloud(P[:2])
-        s.landmarks["g2"] = inner
+        s.landmarks["alpha_g"] = inner
         return s
 
     tex = lambda: Image(np.random.RandomState(0).rand(3, 6, 7))
@@ -115,10 +115,10 @@ def _mutators(name, c):
     pc = ms.PointCloud(np.array([[9.0, 9.0], [8.0, 8.0]]))
     if hasattr(c, "landmarks") and not name.startswith(("Align", "Thin", "Piece", "Python")):
         out.append(("landmarks.__setitem__", lambda: c.landmarks.__setitem__("zz_new", pc)))
-        out.append(("landmarks.__delitem__", lambda: c.landmarks.__delitem__("g1")))
+        out.append(("landmarks.__delitem__", lambda: c.landmarks.__delitem__("zeta_g")))
     if name == "LandmarkManager":
         out.append(("__setitem__", lambda: c.__setitem__("zz_new", pc)))
-        out.append(("__delitem__", lambda: c.__delitem__("g1")))
+        out.append(("__delitem__", lambda: c.__delitem__("zeta_g")))
     if hasattr(c, "set_target"):
         out.append(("set_target", lambda: c.set_target(ms.PointCloud(c.target.points * 1.25 + 0.5))))
     if hasattr(c, "compose_before_inplace") and name not in ("WithDims",):
